@@ -59,7 +59,7 @@ var tokenBytes = map[string][]string{
 // scalar names of the decoder export
 var scalarText = map[string]string{
 	"sc:plain": "a", "sc:esc-n": "\n", "sc:esc-q": `"`, "sc:esc-bs": `\`, "sc:esc-sl": "/", "sc:esc-b": "\b",
-	"sc:u-ascii": "A", "sc:u-latin": string(rune(0xe9)), "sc:u-nul": "\x00", "sc:u-ctl": "\x1f", "sc:u-2028": string(rune(0x2028)), "sc:u-bmp": string(rune(0xfffd)),
+	"sc:u-ascii": "A", "sc:u-quote": `"`, "sc:u-bs": `\`, "sc:u-latin": string(rune(0xe9)), "sc:u-nul": "\x00", "sc:u-ctl": "\x1f", "sc:u-2028": string(rune(0x2028)), "sc:u-bmp": string(rune(0xfffd)),
 	"supp:u-pair": string(rune(0x1F60A)), "supp:u-pair-upper": string(rune(0x1D11E)), "supp:high+low": string(rune(0x1F60A)), "fffd": string(rune(0xfffd)),
 	"sc:mb2": "\xc3\xa9", "sc:mb3": "\xe2\x82\xac", "sc:mb4": "\xf0\x9f\x98\x80",
 }
